@@ -25,7 +25,8 @@ TEXT = {'text': 'Kernel-checked theorems over a faithful model of SighashCache (
          'recomputed from the current transaction and spent outputs", C13_invariant/C13_step, and C13_caches_ignore_script_witness); C13_need_all — '
          'Prevouts::One with a type without ANYONECANPAY is Err(PrevoutKind) in every state; C13_acp_one — for every ANYONECANPAY type (ALL|ACP, NONE|ACP, SINGLE|ACP), One(i, spent[i]) '
          'yields the same pre-image, digest and cache state as All (finding F11 was repaired by 539d5ee; the model follows the new cache layout). Each run drives one real SighashCache with random operation sequences, compares every '
-         'answer with the extracted model and, on the implementation itself, with a fresh cache and with One versus All.',
+         'answer with the extracted model and, on the implementation itself, with a fresh cache over the current AND over the original (pre-witness_mut) '
+         'transaction and with One versus All.',
  'design_ref': 'DESIGN.md section 6, C13',
  'note': 'Trusted: Coq kernel; hand-written Gallina model of src/sighash.rs tied to the code by per-run correspondence; abstract hashes; the C01 encoders; '
          'regenerated constants. Finding F11 (ALL|ANYONECANPAY + Prevouts::One -> PrevoutKind) is fixed (539d5ee): the One/All theorem is unrestricted and the '
